@@ -1452,6 +1452,33 @@ def inline_temps(tree, modname, table=None):
   return total
 
 
+def _chain_leaves(chain):
+  """Statement lists at the ends of an if / elif / else chain (an `else` is created when the chain has none)."""
+  out = [chain.body]
+  if len(chain.orelse) == 1 and isinstance(chain.orelse[0], ast.If):
+    out += _chain_leaves(chain.orelse[0])
+  else:
+    out.append(chain.orelse)
+  return out
+
+
+def _leaf_jumps(stmts):
+  if not stmts:
+    return False
+  last = stmts[-1]
+  if isinstance(last, (ast.Return, ast.Raise, ast.Continue, ast.Break)):
+    return True
+  if isinstance(last, ast.If):
+    return bool(last.orelse) and _leaf_jumps(last.body) and _leaf_jumps(last.orelse)
+  return False
+
+
+def _branch_tail_assigns(chain):
+  """Plain `name = value` statements directly in the leaves of the chain."""
+  return [st for leaf in _chain_leaves(chain) for st in leaf
+          if isinstance(st, ast.Assign) and len(st.targets) == 1 and isinstance(st.targets[0], ast.Name)]
+
+
 def _inline_one(fn, refnames, params):
   own = list(_own_walk(fn))
   store_count = {}
@@ -1470,6 +1497,42 @@ def _inline_one(fn, refnames, params):
   for n in own:
     if isinstance(n, ast.comprehension):
       comp_targets |= {x.id for x in ast.walk(n.target) if isinstance(x, ast.Name)}
+  # mode D: a temporary bound in the branches of an `if` chain and read only by the statement after it: that statement
+  # is run at the end of each branch instead (which is what happens anyway), so each branch has its own single binding
+  for _fn, body in _scoped_bodies(fn):
+    if _fn is not None and _fn is not fn:
+      continue
+    for k in range(len(body) - 1):
+      chain, S = body[k], body[k + 1]
+      if not isinstance(chain, ast.If) or isinstance(S, (ast.FunctionDef, ast.AsyncFunctionDef, ast.ClassDef, ast.If, ast.For, ast.While, ast.Try)):
+        continue
+      in_chain = {id(n) for n in ast.walk(chain)}
+      in_S = {id(n) for n in ast.walk(S)}
+      cands = []
+      for t in sorted({n.id for n in ast.walk(chain) if isinstance(n, ast.Name) and isinstance(n.ctx, ast.Store)}):
+        if t in refnames or t in params or t.startswith('__') or t in nested_names or t in comp_targets or store_count.get(t, 0) < 2:
+          continue
+        occ = [n for n in own if isinstance(n, ast.Name) and n.id == t]
+        if all((id(n) in in_chain and isinstance(n.ctx, ast.Store)) or (id(n) in in_S and isinstance(n.ctx, ast.Load)) for n in occ) \
+            and any(id(n) in in_S for n in occ) \
+            and all(any(n is x for a in _branch_tail_assigns(chain) for x in a.targets) for n in occ if isinstance(n.ctx, ast.Store)):
+          cands.append(t)
+      if not cands:
+        continue
+      leaves = _chain_leaves(chain)
+      serial = [0]
+      for leaf in leaves:
+        if _leaf_jumps(leaf):
+          continue
+        cp = copy.deepcopy(S)
+        leaf.append(cp)
+        serial[0] += 1
+        for n in [x for st_ in leaf for x in ast.walk(st_)]:
+          if isinstance(n, ast.Name) and n.id in cands:
+            n.id = '%s_%d' % (n.id, serial[0])
+      del body[k + 1]
+      ast.fix_missing_locations(fn)
+      return True
   for _fn, body in _scoped_bodies(fn):
     if _fn is not None and _fn is not fn:
       continue
@@ -1477,7 +1540,7 @@ def _inline_one(fn, refnames, params):
       if not (isinstance(st, ast.Assign) and len(st.targets) == 1 and isinstance(st.targets[0], ast.Name)):
         continue
       t = st.targets[0].id
-      if t in refnames or t in params or t.startswith('__') or store_count.get(t, 0) != 1:
+      if t in refnames or t in params or (t.startswith('__') and not t.startswith('__t_')) or store_count.get(t, 0) != 1:
         continue
       # comprehension targets are counted as stores by ast (Store ctx): a clash means shadowing
       if t in comp_targets:
@@ -1691,6 +1754,26 @@ class _ExprForms(ast.NodeTransformer):
   def visit_Compare(self, n):
     self.generic_visit(n)
     return self._compare(n)
+
+  def visit_JoinedStr(self, n):
+    # f'{a}/{b}'  ->  '{}/{}'.format(a, b)      (plain fields only: both spell format(x, ''))
+    self.generic_visit(n)
+    tmpl, ops = '', []
+    for v in n.values:
+      if isinstance(v, ast.Constant) and isinstance(v.value, str):
+        tmpl += v.value.replace('{', '{{').replace('}', '}}')
+      elif isinstance(v, ast.FormattedValue) and v.conversion == -1 and v.format_spec is None:
+        tmpl += '{}'
+        ops.append(v.value)
+      else:
+        return n
+    if not ops:
+      return n
+    new = ast.Call(func=ast.Attribute(value=ast.Constant(value=tmpl), attr='format', ctx=ast.Load()), args=ops, keywords=[])
+    ast.copy_location(new, n)
+    ast.fix_missing_locations(new)
+    self.n += 1
+    return new
 
   def _flatten_partial(self, n):
     # functools.partial(f, a, k=v)(b)  ->  f(a, b, k=v)
@@ -2778,6 +2861,129 @@ def collect_generators(tree, modname, table=None):
   return count
 
 
+_READ_METHODS = {'get', 'items', 'keys', 'values', 'index', 'count', 'copy', 'union', 'intersection', 'difference', 'issubset', 'issuperset',
+                 'isdisjoint', 'startswith', 'endswith', 'join', 'format', 'split', 'rsplit', 'strip'}
+
+
+def _load_vocab():
+  p = os.path.join(os.path.dirname(os.path.abspath(__file__)), 'canon_vocab.json')
+  try:
+    with open(p) as f:
+      return set(json.load(f))
+  except (OSError, ValueError):
+    return None
+
+
+def _literal_table(e, depth=0):
+  """A display built from constants, plain names and dotted names only (no calls): evaluating it again gives an equal value."""
+  if isinstance(e, ast.Constant):
+    return True
+  if isinstance(e, ast.Name):
+    return depth > 0
+  if isinstance(e, ast.Attribute):
+    return depth > 0 and _literal_table(e.value, 1) and isinstance(e.value, (ast.Name, ast.Attribute))
+  if isinstance(e, (ast.Tuple, ast.List, ast.Set)):
+    return all(_literal_table(x, depth + 1) for x in e.elts)
+  if isinstance(e, ast.Dict):
+    return all(k is not None and _literal_table(k, depth + 1) for k in e.keys) and all(_literal_table(v, depth + 1) for v in e.values)
+  if isinstance(e, ast.Call) and isinstance(e.func, ast.Name) and e.func.id == 'frozenset' and len(e.args) == 1 and not e.keywords:
+    return _literal_table(e.args[0], depth + 1)
+  return False
+
+
+def inline_module_constants(tree, modname):
+  """A module-level table that the reference tree does not have (`_NEW = (A, B)` / `{...}` of constants and names), bound once,
+  only ever read: every use inside a function is replaced by the display itself."""
+  vocab = _load_vocab()
+  if vocab is None:
+    return 0
+  cands = {}
+  for st in tree.body:
+    tgt = None
+    if isinstance(st, ast.Assign) and len(st.targets) == 1 and isinstance(st.targets[0], ast.Name):
+      tgt, val = st.targets[0].id, st.value
+    elif isinstance(st, ast.AnnAssign) and isinstance(st.target, ast.Name) and st.value is not None:
+      tgt, val = st.target.id, st.value
+    if tgt and tgt not in vocab and not isinstance(val, ast.Constant) and _literal_table(val):
+      cands[tgt] = val
+  if not cands:
+    return 0
+  parents = {}
+  for n in ast.walk(tree):
+    for c in ast.iter_child_nodes(n):
+      parents[id(c)] = n
+  stores = {}
+  for n in ast.walk(tree):
+    if isinstance(n, ast.Name) and n.id in cands and isinstance(n.ctx, (ast.Store, ast.Del)):
+      stores[n.id] = stores.get(n.id, 0) + 1
+    elif isinstance(n, (ast.Global, ast.Nonlocal)):
+      for x in n.names:
+        if x in cands:
+          stores[x] = 99
+    elif isinstance(n, ast.arg) and n.arg in cands:
+      stores[n.arg] = 99
+  count = 0
+  for name, val in sorted(cands.items()):
+    if stores.get(name, 0) != 1:
+      continue
+    immutable = isinstance(val, (ast.Tuple, ast.Call))
+    uses = [n for n in ast.walk(tree) if isinstance(n, ast.Name) and n.id == name and isinstance(n.ctx, ast.Load)]
+    ok = bool(uses)
+    for n in uses:
+      par = parents.get(id(n))
+      if immutable and not any(isinstance(x, (ast.List, ast.Dict, ast.Set)) for x in ast.walk(val)):
+        continue
+      if isinstance(par, ast.Subscript) and par.value is n and isinstance(par.ctx, ast.Load):
+        continue
+      if isinstance(par, ast.Compare) and n in par.comparators and all(isinstance(o, (ast.In, ast.NotIn)) for o in par.ops):
+        continue
+      if isinstance(par, (ast.For, ast.comprehension)) and par.iter is n:
+        continue
+      if isinstance(par, ast.Attribute) and par.attr in _READ_METHODS and isinstance(parents.get(id(par)), ast.Call):
+        continue
+      ok = False
+      break
+    if not ok:
+      continue
+    # the names the display mentions must mean the module-level thing where it is used
+    vnames = {x.id for x in ast.walk(val) if isinstance(x, ast.Name)}
+    funcs = [f for f in ast.walk(tree) if isinstance(f, (ast.FunctionDef, ast.AsyncFunctionDef, ast.Lambda))]
+    def shadowed(n):
+      cur = parents.get(id(n))
+      while cur is not None:
+        if isinstance(cur, (ast.FunctionDef, ast.AsyncFunctionDef, ast.Lambda)):
+          bound = {a.arg for a in ast.walk(cur.args) if isinstance(a, ast.arg)}
+          bound |= {x.id for x in ast.walk(cur) if isinstance(x, ast.Name) and isinstance(x.ctx, ast.Store)}
+          if bound & vnames:
+            return True
+        cur = parents.get(id(cur))
+      return False
+    in_funcs = [n for n in uses if any(isinstance(a, (ast.FunctionDef, ast.AsyncFunctionDef)) for a in _ancestors(n, parents))]
+    if len(in_funcs) != len(uses) or any(shadowed(n) for n in uses):
+      continue
+    for n in uses:
+      par = parents.get(id(n))
+      rep = ast.copy_location(copy.deepcopy(val), n)
+      for fld, v in ast.iter_fields(par):
+        if v is n:
+          setattr(par, fld, rep)
+        elif isinstance(v, list):
+          for j, x in enumerate(v):
+            if x is n:
+              v[j] = rep
+    count += 1
+  if count:
+    ast.fix_missing_locations(tree)
+  return count
+
+
+def _ancestors(n, parents):
+  cur = parents.get(id(n))
+  while cur is not None:
+    yield cur
+    cur = parents.get(id(cur))
+
+
 def lifted_candidates(tree, modname, table=None):
   """Names of new module-level functions that look like a reference closure that is missing now."""
   table = table if table is not None else _load_table()
@@ -2901,7 +3107,8 @@ def normalize(tree, modname):
     b = idioms(tree)
     ast.fix_missing_locations(tree)
     return 0, b
-  a = restore_function_names(tree, modname)
+  a = inline_module_constants(tree, modname)
+  a += restore_function_names(tree, modname)
   a += collect_generators(tree, modname)
   a += inline_generators(tree, modname)
   a += unlift(tree, modname)
